@@ -53,6 +53,7 @@ fn main() {
         "C09" => query::run("C09"),
         "C10" => query::run("C10"),
         "replay" => replay(&args),
+        "regressions" => regressions(),
         _ => {
             eprintln!("unknown command {cmd}");
             std::process::exit(2);
@@ -75,6 +76,53 @@ fn replay(args: &[String]) {
             "tamper" => tamper::replay(&v["replay"]),
             d => { eprintln!("no replayer for hsim driver {d}"); std::process::exit(2); }
         },
-        e => { eprintln!("no replayer for engine {e}"); std::process::exit(2); }
+        e => {
+            // the searches are deterministic and breadth-first: re-running the check reproduces this
+            // (shortest) counterexample; the payload below identifies configuration and history
+            println!("engine {e}: no step-by-step replayer; recorded configuration and history:");
+            println!("{}", serde_json::to_string_pretty(&v["replay"]).unwrap_or_default());
+            println!("re-run: ./check {prop} quick");
+        }
     }
+}
+
+/// Re-executes the committed counterexamples of repaired defects (handler worlds and codec) and
+/// fails if one of them violates again.
+fn regressions() {
+    let mut bad = 0;
+    let mut ran = 0;
+    let mut skipped = 0;
+    let mut files: Vec<_> = std::fs::read_dir("/verif/regressions").map(|d| d.filter_map(|e| e.ok()).map(|e| e.path()).collect()).unwrap_or_default();
+    files.sort();
+    for f in files {
+        let v: serde_json::Value = match std::fs::read_to_string(&f).ok().and_then(|s| serde_json::from_str(&s).ok()) {
+            Some(v) => v,
+            None => continue,
+        };
+        let prop = v["property"].as_str().unwrap_or("").to_string();
+        let r = &v["replay"];
+        let outcome: Option<bool> = match (r["engine"].as_str().unwrap_or(""), r["driver"].as_str().unwrap_or("")) {
+            ("hsim", "hdrive") => Some(hdrive::regression_holds(r, &prop)),
+            ("hsim", "attack") => Some(attack::regression_holds(r, &prop)),
+            ("hsim", "expiry") => Some(expiry::regression_holds(r)),
+            _ => None,
+        };
+        match outcome {
+            Some(true) => {
+                ran += 1;
+                println!("ok      {}", f.display());
+            }
+            Some(false) => {
+                ran += 1;
+                bad += 1;
+                println!("VIOLATION property={} replay={}", prop, f.display());
+            }
+            None => {
+                skipped += 1;
+                println!("skipped {} (re-run ./check {} quick)", f.display(), prop);
+            }
+        }
+    }
+    println!("regressions: {ran} replayed, {bad} violating, {skipped} skipped");
+    std::process::exit(if bad == 0 { 0 } else { 1 });
 }
